@@ -4,6 +4,7 @@ import F3.Proofs.InstanceGen
 import F3.Proofs.MultiParticipantEx
 import F3.Proofs.NoFailureRun
 import F3.Proofs.NoFailureParticipant
+import F3.Proofs.EmittedValidEx
 /-!
 # C07 — protocol discipline of an honest participant (Layer B, on the executable model of `gpbft.go`)
 
@@ -878,5 +879,247 @@ example : ([7, 8] : Chain) ≠ [] ∧ 0 < exTbl.total ∧
     simp [POpP, PMsgOK, MsgValid, exTbl, Table.power]
 
 end NoFailure
+
+/-! ## Run level: validity of every emitted message, the tight longest-prefix spec, the QUALITY tally, completeness of
+the candidate set (audit finding H2)
+
+Proofs in `F3.Proofs.EmittedValid{,Cands,Quality,Ex}` (core-only); `F3.Proofs.EmittedValidBridge` restates
+`emitted_valid` over `F3.Bridge.ValidRun` / `NetworkV`. All theorems are about runs `Start :: ops` of `F3.Instance.step`
+from `init`, `ops` being alarms and deliveries each of which is foreign (other instance / supplemental data) or
+validated w.r.t. the set `W` of existing votes — the hypotheses of `no_internal_error_or_panic`; no failure
+hypothesis. -/
+section RunLevel
+open F3.EmittedValid
+
+/-- **Every message it emits is valid and acceptable to its peers.** If moreover `W` contains the participant's own
+broadcasts and the participant has positive power, then every broadcast request `(r, ph, v, j)` of the run, seen as
+the message `msgOf p r ph v j` a peer receives, satisfies `MsgValid W t` — the model of `gpbft/validator.go`, w.r.t.
+the **same** evidence set `W` (every signer of an attached justification cast a vote that was delivered to `p`, or
+signed a justification that was). Spelled out (`F3.EmittedValid.Shape`): QUALITY is for round 0 and not bottom;
+CONVERGE is for a round `≥ 1`, not bottom, and carries `ConvJust` of the previous round (strong PREPARE quorum for the
+value, or strong COMMIT quorum for bottom); PREPARE of round 0 carries no justification, of round `≥ 1` a `ConvJust`;
+COMMIT for bottom carries none, for a value the `CommitJust` (strong PREPARE quorum of the same round for that value);
+DECIDE is labelled round 0, not bottom, and carries a strong COMMIT quorum (any round) for the same value. -/
+theorem emitted_valid (cfg : Cfg) (t : Table) (input : Chain) (W : Votes) (p : Pid) (now0 : Int) (ops : List Op)
+    (hin : input ≠ []) (hT : 0 < t.total) (hpos : 0 < t.power p)
+    (hstart : ∀ op ∈ ops, op.isStart = false)
+    (hvalid : ∀ op ∈ ops, foreignOp op = true ∨ OpValidG W t op)
+    (hown : ∀ r ph v tk j, Eff.broadcast r ph v tk j ∈ (run (init cfg t input) (.start now0 :: ops)).2 → W p r ph v) :
+    ∀ r ph v tk j, Eff.broadcast r ph v tk j ∈ (run (init cfg t input) (.start now0 :: ops)).2 →
+      MsgValid W t (msgOf p r ph v j) :=
+  emitted_valid_run cfg t input W p now0 ops hin hT hpos hstart hvalid hown
+
+/-- the phase-specific part, without the power hypothesis -/
+theorem emitted_shapes (cfg : Cfg) (t : Table) (input : Chain) (W : Votes) (p : Pid) (now0 : Int) (ops : List Op)
+    (hin : input ≠ []) (hT : 0 < t.total)
+    (hstart : ∀ op ∈ ops, op.isStart = false)
+    (hvalid : ∀ op ∈ ops, foreignOp op = true ∨ OpValidG W t op)
+    (hown : ∀ r ph v tk j, Eff.broadcast r ph v tk j ∈ (run (init cfg t input) (.start now0 :: ops)).2 → W p r ph v) :
+    ∀ r ph v tk j, Eff.broadcast r ph v tk j ∈ (run (init cfg t input) (.start now0 :: ops)).2 → Shape W t r ph v j :=
+  run_shaped cfg t input W p now0 ops hin hT hstart hvalid hown
+
+/-- Non-vacuity: the two-round run `r2Ops` of member 1 (`F3.Proofs.EmittedValidEx`: PREPARE split, COMMIT bottom,
+CONVERGE and PREPARE of round 1 justified by the COMMIT-bottom quorum, COMMIT `[7]` by the PREPARE quorum of round 1,
+DECIDE by the COMMIT quorum of round 1, one refusal after termination) meets every hypothesis; all seven broadcasts,
+with the justifications the model attached, are accepted. -/
+example :
+    MsgValid r2W r2Tbl (msgOf 1 0 .quality [7, 8] none) ∧ MsgValid r2W r2Tbl (msgOf 1 0 .prepare [7, 8] none) ∧
+    MsgValid r2W r2Tbl (msgOf 1 0 .commit [] none) ∧ MsgValid r2W r2Tbl (msgOf 1 1 .converge [7, 8] (some jB)) ∧
+    MsgValid r2W r2Tbl (msgOf 1 1 .prepare [7] (some jB)) ∧ MsgValid r2W r2Tbl (msgOf 1 1 .commit [7] (some jP)) ∧
+    MsgValid r2W r2Tbl (msgOf 1 0 .decide [7] (some jC)) := by
+  have h := emitted_valid r2Cfg r2Tbl [7, 8] r2W 1 0 r2Ops (by decide) (by decide) (by decide) r2_noRestart r2_valid r2_own
+  have key : ∀ x ∈ bcList r2Run.2, MsgValid r2W r2Tbl (msgOf 1 x.1 x.2.1 x.2.2.1 x.2.2.2) := by
+    intro x hx
+    simp only [bcList, List.mem_filterMap] at hx
+    obtain ⟨e, he, hex⟩ := hx
+    cases e <;> simp at hex
+    subst hex
+    exact h _ _ _ _ _ he
+  rw [r2_broadcasts] at key
+  exact ⟨key (0, .quality, [7, 8], none) (by simp), key (0, .prepare, [7, 8], none) (by simp),
+    key (0, .commit, [], none) (by simp), key (1, .converge, [7, 8], some jB) (by simp),
+    key (1, .prepare, [7], some jB) (by simp), key (1, .commit, [7], some jP) (by simp),
+    key (0, .decide, [7], some jC) (by simp)⟩
+
+/-- `hpos` is needed: a participant without power runs the same code and broadcasts QUALITY — which every validator
+rejects (`validator.go`: "sender with zero power"); all other hypotheses hold (`ops = []`). -/
+example : Eff.broadcast 0 .quality [7, 8] false none ∈ (run (init r2Cfg r2Tbl [7, 8]) [.start 0]).2 ∧
+    r2Tbl.power 9 = 0 ∧ ∀ W, ¬ MsgValid W r2Tbl (msgOf 9 0 .quality [7, 8] none) :=
+  ⟨by decide, by decide, fun W h => absurd h.2.1 (by decide)⟩
+
+/-! ### `longestPrefixWithQuorum`: the spec with its maximality clause -/
+
+/-- **Nothing longer has a quorum.** No prefix of the preferred chain longer than `longestPrefixWithQuorum` has a
+strong quorum in the tally (the clause missing from `longest_prefix_spec`, which is kept as is). -/
+theorem longest_prefix_maximal (q : Tally) (c : Chain) :
+    (∀ x, x <+: c → (q.longestPrefixWithQuorum c).length < x.length → q.hasStrongFor x = false) ∧
+    (∀ i, (q.longestPrefixWithQuorum c).length ≤ i → i < c.length → q.hasStrongFor (prefixTo c i) = false) :=
+  ⟨fun x hx hl => F3.EmittedValid.longest_prefix_maximal q c x hx hl,
+   fun i h1 h2 => longest_prefix_maximal_idx q c i h1 h2⟩
+
+/-- **With that clause the spec is tight**: a non-empty prefix of `c` that is the base or has a strong quorum, and
+beyond which no prefix of `c` has one, is `longestPrefixWithQuorum c`. -/
+theorem longest_prefix_characterised (q : Tally) (c L : Chain) (hc : c ≠ []) :
+    L = q.longestPrefixWithQuorum c ↔
+      (L <+: c ∧ L ≠ [] ∧ (L = baseChain c ∨ q.hasStrongFor L = true) ∧
+        ∀ x, x <+: c → L.length < x.length → q.hasStrongFor x = false) := by
+  constructor
+  · rintro rfl
+    obtain ⟨h1, h2⟩ := longest_prefix_facts q c hc
+    exact ⟨h1, h2, longest_prefix_sat q c, (longest_prefix_maximal q c).1⟩
+  · rintro ⟨h1, h2, h3, h4⟩
+    exact longest_prefix_unique q c L hc h1 h2 h3 h4
+
+/-- the audit's `badLP` (E1) satisfies the three conjuncts of `longest_prefix_spec` but not maximality: three
+QUALITY votes `[7,8]`, input `[7,8,9]` — `longestPrefixWithQuorum` returns `[7,8]`, `badLP` the base `[7]` although
+the longer prefix `[7,8]` has a strong quorum. Also non-vacuity of `longest_prefix_maximal` (a tally with quorums). -/
+example :
+    let q := qTally r2Tbl [(1, [7, 8]), (2, [7, 8]), (3, [7, 8])]
+    let badLP := fun (q : Tally) (c : Chain) => if q.hasStrongFor c then c else baseChain c
+    q.longestPrefixWithQuorum [7, 8, 9] = [7, 8] ∧ badLP q [7, 8, 9] = [7] ∧
+    q.hasStrongFor [7, 8] = true ∧ ([7, 8] : Chain) <+: [7, 8, 9] ∧ q.hasStrongFor [7, 8, 9] = false := by
+  refine ⟨by decide, by decide, by decide, ⟨[9], rfl⟩, by decide⟩
+
+/-! ### the QUALITY tally -/
+
+/-- **What the QUALITY tally holds.** For every run whatsoever: `quality` is `qTally` of the QUALITY votes that were
+handed to the tally (`qvotesFrom`: QUALITY messages passing the door checks of `receiveOne`, in delivery order); and
+with positive total power `hasStrongFor x` says: the distinct first-time senders (`firstVotes`: later votes of a
+sender are ignored) whose vote has `x` as a prefix extending the base by at least one tipset hold a strong quorum. -/
+theorem quality_tally_meaning (cfg : Cfg) (t : Table) (input : Chain) (ops : List Op) (hT : 0 < t.total) (x : Chain) :
+    (run (init cfg t input) ops).1.quality = qTally t (qvotesFrom (init cfg t input) ops) ∧
+    (run (init cfg t input) ops).1.quality.hasStrongFor x =
+      strongQ t (sumP t (((firstVotes (qvotesFrom (init cfg t input) ops)).filter
+        (fun e => decide (x <+: e.2 ∧ 2 ≤ x.length))).map (·.1))) := by
+  refine ⟨quality_run cfg t input ops, ?_⟩
+  rw [quality_run, qTally_hasStrongFor t _ hT x]
+  unfold qPower qSupporters
+  congr 4
+  funext e
+  rw [decide_eq_decide]
+  exact counts_iff e.2 x
+
+/-- the first-time votes behind the tally: one per sender, each of them a tallied vote, every tallied sender present -/
+theorem quality_first_votes (vs : List QVote) :
+    ((firstVotes vs).map (·.1)).Nodup ∧ (∀ e ∈ firstVotes vs, e ∈ vs) ∧ ∀ e ∈ vs, ∃ e' ∈ firstVotes vs, e'.1 = e.1 :=
+  firstVotes_spec vs
+
+/-- **Round-0 PREPARE on runs.** In every validated run a PREPARE without justification is for round 0, is broadcast
+by the call that takes the instance out of QUALITY, and its value is `longestPrefixWithQuorum input` over exactly
+the QUALITY votes tallied up to and including that call (`prepare0_value` at run level). -/
+theorem prepare0_run (cfg : Cfg) (t : Table) (input : Chain) (W : Votes) (now0 : Int) (ops : List Op)
+    (hin : input ≠ []) (hT : 0 < t.total)
+    (hstart : ∀ op ∈ ops, op.isStart = false)
+    (hvalid : ∀ op ∈ ops, foreignOp op = true ∨ OpValidG W t op)
+    (r : Nat) (v : Chain) (tk : Bool)
+    (hm : Eff.broadcast r .prepare v tk none ∈ (run (init cfg t input) (.start now0 :: ops)).2) :
+    r = 0 ∧ ∃ ops1 op ops2, ops = ops1 ++ op :: ops2 ∧
+      (run (init cfg t input) (.start now0 :: ops1)).1.phase = .quality ∧
+      (run (init cfg t input) (.start now0 :: (ops1 ++ [op]))).1.phase ≠ .quality ∧
+      Eff.broadcast r .prepare v tk none ∈ (step (run (init cfg t input) (.start now0 :: ops1)).1 op).2 ∧
+      v = (qTally t (qvotesFrom (init cfg t input) (.start now0 :: (ops1 ++ [op])))).longestPrefixWithQuorum input :=
+  F3.EmittedValid.prepare0_run cfg t input W now0 ops hin hT hstart hvalid r v tk hm
+
+/-- Non-vacuity on `r2Ops`: the tally holds the four QUALITY votes (the late one included); the round-0 PREPARE
+`[7,8]` was broadcast at the third vote, over exactly the first three. -/
+example :
+    qvotesFrom (init r2Cfg r2Tbl [7, 8]) (.start 0 :: r2Ops) = [(1, [7, 8]), (2, [7, 8]), (3, [7, 8]), (4, [7, 9])] ∧
+    Eff.broadcast 0 .prepare [7, 8] false none ∈ r2Run.2 ∧
+    (run (init r2Cfg r2Tbl [7, 8]) (.start 0 :: r2Ops.take 2)).1.phase = .quality ∧
+    (run (init r2Cfg r2Tbl [7, 8]) (.start 0 :: r2Ops.take 3)).1.phase = .prepare ∧
+    (qTally r2Tbl (qvotesFrom (init r2Cfg r2Tbl [7, 8]) (.start 0 :: r2Ops.take 3))).longestPrefixWithQuorum [7, 8] = [7, 8] := by
+  refine ⟨by decide +kernel, by decide +kernel, by decide +kernel, by decide +kernel, by decide +kernel⟩
+
+/-! ### completeness of the candidate set, CONVERGE adoption -/
+
+/-- **Completeness of the candidates.** In every validated run, whenever the instance is in CONVERGE, PREPARE or
+COMMIT (of any round), every non-empty prefix of the proposal formed from the QUALITY votes tallied so far — late
+votes included — is a candidate; and every non-empty prefix of the value of the round-0 PREPARE (the proposal formed
+when QUALITY ended) is a candidate from then on, in every phase. (Soundness is `CandOK`.) -/
+theorem candidates_complete (cfg : Cfg) (t : Table) (input : Chain) (W : Votes) (now0 : Int) (ops : List Op)
+    (hin : input ≠ []) (hT : 0 < t.total)
+    (hstart : ∀ op ∈ ops, op.isStart = false)
+    (hvalid : ∀ op ∈ ops, foreignOp op = true ∨ OpValidG W t op) :
+    ((run (init cfg t input) (.start now0 :: ops)).1.phase = .converge ∨
+      (run (init cfg t input) (.start now0 :: ops)).1.phase = .prepare ∨
+      (run (init cfg t input) (.start now0 :: ops)).1.phase = .commit →
+      ∀ x, x ≠ [] → x <+: (run (init cfg t input) (.start now0 :: ops)).1.quality.longestPrefixWithQuorum input →
+        (run (init cfg t input) (.start now0 :: ops)).1.isCandidate x = true) ∧
+    (∀ r v tk, Eff.broadcast r .prepare v tk none ∈ (run (init cfg t input) (.start now0 :: ops)).2 →
+      ∀ x, x ≠ [] → x <+: v → (run (init cfg t input) (.start now0 :: ops)).1.isCandidate x = true) := by
+  obtain ⟨hc, hp, _, _⟩ := run_cci cfg t input W now0 ops hin hT hstart hvalid
+  have hinp : (run (init cfg t input) (.start now0 :: ops)).1.input = input := by
+    rw [run_eq_runFrom, runFrom_input']; rfl
+  constructor
+  · intro hph x hne hx
+    have hmid : (run (init cfg t input) (.start now0 :: ops)).1.phase.mid = true := by
+      rcases hph with h | h | h <;> rw [h] <;> rfl
+    have := hc.complete hmid
+    unfold LP at this
+    rw [hinp] at this
+    simpa [State.isCandidate] using mem_of_prefix_all this hx hne
+  · intro r v tk hm x hne hx
+    simpa [State.isCandidate] using mem_of_prefix_all (hp r v tk hm) hx hne
+
+/-- **The restriction to CONVERGE / PREPARE / COMMIT is needed** ("once the phase is ≥ PREPARE of round 0" is false
+as it stands): a DECIDE message (or a strong COMMIT quorum) takes an instance from QUALITY straight to DECIDE
+(`skipToDecide` / `beginDecide`) without concluding QUALITY, so the candidates are not completed. Validated run
+`cxOps` of member 4 (input `[7,8,9]`): in DECIDE the QUALITY proposal is `[7,8]`, which is not a candidate. Harmless:
+candidates are read by `tryConverge` only, and DECIDE is never left for CONVERGE. -/
+example :
+    let s := (run (init r2Cfg r2Tbl [7, 8, 9]) (.start 0 :: cxOps)).1
+    (∀ op ∈ cxOps, op.isStart = false) ∧ (∀ op ∈ cxOps, foreignOp op = true ∨ OpValidG (WofL cxVotes) r2Tbl op) ∧
+    s.phase = .decide ∧ s.quality.longestPrefixWithQuorum [7, 8, 9] = [7, 8] ∧ s.isCandidate [7, 8] = false ∧
+    s.candidates = [[7]] :=
+  ⟨cx_noRestart, cx_valid, by decide +kernel, by decide +kernel, by decide +kernel, by decide +kernel⟩
+
+/-- **The best ticket is adopted whenever its value is a prefix of the proposal formed from QUALITY.** In every
+validated run that has reached CONVERGE: when the timeout has elapsed at the alarm, the value of the best ticket
+*overall* (`findBest` with the trivial filter: first lowest rank among all CONVERGE values of the round, the own one
+included) is PREPAREd, with its justification, provided it is a prefix of the proposal formed from the QUALITY votes
+tallied so far, or of the value of the round-0 PREPARE. (`converge_adopts_best_valid` says the adopted value is the
+best among the *admissible* ones; this is the half that needed completeness of the candidates.) -/
+theorem converge_adopts_best_ticket (cfg : Cfg) (t : Table) (input : Chain) (W : Votes) (now0 : Int) (ops : List Op)
+    (hin : input ≠ []) (hT : 0 < t.total)
+    (hstart : ∀ op ∈ ops, op.isStart = false)
+    (hvalid : ∀ op ∈ ops, foreignOp op = true ∨ OpValidG W t op) (now : Int) (b : ConvVal)
+    (hph : (run (init cfg t input) (.start now0 :: ops)).1.phase = .converge)
+    (hto : (run (init cfg t input) (.start now0 :: ops)).1.phaseTimeoutElapsed now = true)
+    (hb : ((run (init cfg t input) (.start now0 :: ops)).1.getRound
+      (run (init cfg t input) (.start now0 :: ops)).1.round).converged.findBest (fun _ => true) = some b)
+    (hpre : b.chain <+: (run (init cfg t input) (.start now0 :: ops)).1.quality.longestPrefixWithQuorum input ∨
+      ∃ r v tk, Eff.broadcast r .prepare v tk none ∈ (run (init cfg t input) (.start now0 :: ops)).2 ∧ b.chain <+: v) :
+    Eff.broadcast (run (init cfg t input) (.start now0 :: ops)).1.round .prepare b.chain false (some b.just) ∈
+      (step (run (init cfg t input) (.start now0 :: ops)).1 (.alarm now)).2 := by
+  obtain ⟨h1, h2⟩ := candidates_complete cfg t input W now0 ops hin hT hstart hvalid
+  obtain ⟨_, _, hnfi, _⟩ := run_cci cfg t input W now0 ops hin hT hstart hvalid
+  have hne : b.chain ≠ [] :=
+    ((getRound_ok hnfi.1.core.rounds _).conv b (findBest_mem _ _ _ hb).1).1
+  have hcand : (run (init cfg t input) (.start now0 :: ops)).1.isCandidate b.chain = true := by
+    rcases hpre with h | ⟨r, v, tk, hm, h⟩
+    · exact h1 (Or.inl hph) _ hne h
+    · exact h2 r v tk hm _ hne h
+  have := tryConverge_adopts _ now b hph hto hb hne hcand
+  simpa [step, State.tryCurrentPhase, hph] using this
+
+/-- Non-vacuity on `r2Ops`: before the alarm at 400 member 1 is in CONVERGE of round 1 with the timeout elapsed; the
+best ticket overall is member 3's `[7]` (rank 1), a proper prefix of the QUALITY proposal `[7,8]`; every non-empty
+prefix of `[7,8]` is a candidate; and the alarm PREPAREs `[7]` with the ticket's justification. -/
+example :
+    let s := (run (init r2Cfg r2Tbl [7, 8]) (.start 0 :: r2Ops.take 16)).1
+    s.phase = .converge ∧ s.round = 1 ∧ s.phaseTimeoutElapsed 400 = true ∧
+    ((s.getRound s.round).converged.findBest (fun _ => true)).map (fun b => (b.chain, b.rank, b.just)) =
+      some ([7], some 1, jB) ∧
+    s.quality.longestPrefixWithQuorum [7, 8] = [7, 8] ∧ s.isCandidate [7] = true ∧ s.isCandidate [7, 8] = true ∧
+    Eff.broadcast 1 .prepare [7] false (some jB) ∈ (step s (.alarm 400)).2 := by
+  refine ⟨by decide +kernel, by decide +kernel, by decide +kernel, by decide +kernel, by decide +kernel,
+    by decide +kernel, by decide +kernel, by decide +kernel⟩
+
+/-- …and the hypotheses of `candidates_complete` / `converge_adopts_best_ticket` hold of that prefix of the run -/
+example : (∀ op ∈ r2Ops.take 16, op.isStart = false) ∧
+    (∀ op ∈ r2Ops.take 16, foreignOp op = true ∨ OpValidG r2W r2Tbl op) :=
+  ⟨fun op hop => r2_noRestart op (List.mem_of_mem_take hop), fun op hop => r2_valid op (List.mem_of_mem_take hop)⟩
+
+end RunLevel
 
 end F3.Props.C07
